@@ -902,6 +902,113 @@ theorem gen_set_removeSelf {h : Nat → Nat} {pt : PTable} {t : Table} (hr : Rel
   exact gen_set_removeSelf_loop h _ pt t _ hr hi
 
 
+/-! ### the one-line members: size, isEmpty, contains, front, back, append, prepend -/
+
+theorem gen_map_size (h : Nat → Nat) (t : PTable) : HashLink.HashMap.size h t = some (t, t.size) := rfl
+theorem gen_map_isEmpty (h : Nat → Nat) (t : PTable) : HashLink.HashMap.isEmpty h t = some (t, t.isEmpty) := rfl
+
+/-- `contains(key)` = `find(key) != _end` -/
+theorem gen_map_contains (h : Nat → Nat) (t : PTable) (k : Nat) :
+    HashLink.HashMap.contains h t k = (t.find h k).map (fun r => (t, r.isSome)) := by
+  unfold HashLink.HashMap.contains
+  rw [gen_map_find]
+  cases t.find h k with
+  | none => rfl
+  | some r => cases r <;> simp [findResult, iterOf]
+
+/-- `front()` / `back()` (every overload): what the first / last item shows; a fault on the empty table -/
+theorem gen_map_front (h : Nat → Nat) (t : PTable) :
+    HashLink.HashMap.front h t = (match t.begin with | .item id => some (t, shown Kind.map t id) | .stl _ => none) := by
+  unfold HashLink.HashMap.front
+  cases t.begin <;> simp [shown]
+
+theorem gen_map_back (h : Nat → Nat) (t : PTable) :
+    HashLink.HashMap.back h t = (match t.endPrev with | some id => some (t, shown Kind.map t id) | none => none) := by
+  unfold HashLink.HashMap.back
+  simp only [PTable.prevOf]
+  cases t.endPrev <;> simp [shown]
+
+/-- `append(key, value)` = `insert(_end, …).item->value`: the value of the item the returned iterator designates -/
+theorem gen_map_append (h : Nat → Nat) (t : PTable) (k v : Nat) :
+    HashLink.HashMap.append h t k v = (t.insert Kind.map h (.stl t.self) k v).map (fun r => (r.1, (r.1.items r.2).value)) := by
+  unfold HashLink.HashMap.append
+  rw [gen_map_insert h t _ k v (by simp)]
+  cases t.insert Kind.map h (.stl t.self) k v <;> rfl
+
+theorem gen_map_prepend (h : Nat → Nat) (t : PTable) (k v : Nat) (hp : t.begin ≠ .item (t.allocItem Kind.map).1) :
+    HashLink.HashMap.prepend h t k v = (t.insert Kind.map h t.begin k v).map (fun r => (r.1, (r.1.items r.2).value)) := by
+  unfold HashLink.HashMap.prepend
+  rw [gen_map_insert h t _ k v hp]
+  cases t.insert Kind.map h t.begin k v <;> rfl
+
+theorem gen_set_size (h : Nat → Nat) (t : PTable) : HashLink.HashSet.size h t = some (t, t.size) := rfl
+theorem gen_set_isEmpty (h : Nat → Nat) (t : PTable) : HashLink.HashSet.isEmpty h t = some (t, t.isEmpty) := rfl
+
+/-- `contains(key)` = `find(key) != _end` -/
+theorem gen_set_contains (h : Nat → Nat) (t : PTable) (k : Nat) :
+    HashLink.HashSet.contains h t k = (t.find h k).map (fun r => (t, r.isSome)) := by
+  unfold HashLink.HashSet.contains
+  rw [gen_set_find]
+  cases t.find h k with
+  | none => rfl
+  | some r => cases r <;> simp [findResult, iterOf]
+
+/-- `front()` / `back()` (every overload): what the first / last item shows; a fault on the empty table -/
+theorem gen_set_front (h : Nat → Nat) (t : PTable) :
+    HashLink.HashSet.front h t = (match t.begin with | .item id => some (t, shown Kind.set t id) | .stl _ => none) := by
+  unfold HashLink.HashSet.front
+  cases t.begin <;> simp [shown]
+
+theorem gen_set_back (h : Nat → Nat) (t : PTable) :
+    HashLink.HashSet.back h t = (match t.endPrev with | some id => some (t, shown Kind.set t id) | none => none) := by
+  unfold HashLink.HashSet.back
+  simp only [PTable.prevOf]
+  cases t.endPrev <;> simp [shown]
+
+/-- `append(key)` = `insert(_end, key)`, `prepend(key)` = `insert(_begin, key)` -/
+theorem gen_set_append (h : Nat → Nat) (t : PTable) (k v : Nat) :
+    HashLink.HashSet.append h t k = (t.insert Kind.set h (.stl t.self) k v).map (·.1) := by
+  unfold HashLink.HashSet.append
+  rw [gen_set_insert h t _ k v (by simp)]
+  cases t.insert Kind.set h (.stl t.self) k v <;> rfl
+
+theorem gen_set_prepend (h : Nat → Nat) (t : PTable) (k v : Nat) (hp : t.begin ≠ .item (t.allocItem Kind.set).1) :
+    HashLink.HashSet.prepend h t k = (t.insert Kind.set h t.begin k v).map (·.1) := by
+  unfold HashLink.HashSet.prepend
+  rw [gen_set_insert h t _ k v hp]
+  cases t.insert Kind.set h t.begin k v <;> rfl
+
+theorem gen_pool_size (h : Nat → Nat) (t : PTable) : HashLink.PoolMap.size h t = some (t, t.size) := rfl
+theorem gen_pool_isEmpty (h : Nat → Nat) (t : PTable) : HashLink.PoolMap.isEmpty h t = some (t, t.isEmpty) := rfl
+
+/-- `contains(key)` = `find(key) != _end` -/
+theorem gen_pool_contains (h : Nat → Nat) (t : PTable) (k : Nat) :
+    HashLink.PoolMap.contains h t k = (t.find h k).map (fun r => (t, r.isSome)) := by
+  unfold HashLink.PoolMap.contains
+  rw [gen_pool_find]
+  cases t.find h k with
+  | none => rfl
+  | some r => cases r <;> simp [findResult, iterOf]
+
+/-- `front()` / `back()` (every overload): what the first / last item shows; a fault on the empty table -/
+theorem gen_pool_front (h : Nat → Nat) (t : PTable) :
+    HashLink.PoolMap.front h t = (match t.begin with | .item id => some (t, shown Kind.pool t id) | .stl _ => none) := by
+  unfold HashLink.PoolMap.front
+  cases t.begin <;> simp [shown]
+
+theorem gen_pool_back (h : Nat → Nat) (t : PTable) :
+    HashLink.PoolMap.back h t = (match t.endPrev with | some id => some (t, shown Kind.pool t id) | none => none) := by
+  unfold HashLink.PoolMap.back
+  simp only [PTable.prevOf]
+  cases t.endPrev <;> simp [shown]
+
+/-- `append(key)` = `insert(_end, …).item->value`: the value of the item the returned iterator designates -/
+theorem gen_pool_append (h : Nat → Nat) (t : PTable) (k v : Nat) :
+    HashLink.PoolMap.append h t k = (t.insert Kind.pool h (.stl t.self) k v).map (fun r => (r.1, (r.1.items r.2).value)) := by
+  unfold HashLink.PoolMap.append
+  rw [gen_pool_insert h t _ k v (by simp)]
+  cases t.insert Kind.pool h (.stl t.self) k v <;> rfl
+
 /-- the hypotheses of the `…_rel` theorems are met by a non-empty represented table, and the translated `remove(iterator)`
     does not fault on it -/
 example : ∃ (pt : PTable) (t : Table), Rel pt t ∧ t.Inv (fun _ => 7) ∧ 0 ∈ t.order ∧
